@@ -7,6 +7,7 @@ import (
 	"github.com/verily-src/fhirpath-go/fhirpath/system"
 	"github.com/verily-src/fhirpath-go/internal/fhir"
 	"github.com/verily-src/fhirpath-go/internal/protofields"
+	"google.golang.org/protobuf/reflect/protoreflect"
 )
 
 var (
@@ -71,6 +72,24 @@ func TypeOf(input any) (TypeSpecifier, error) {
 	if protofields.IsCodeField(item) {
 		return TypeSpecifier{FHIR, "code"}, nil
 	}
+	// A message nested in another message is an anonymous component: a
+	// BackboneElement when it belongs to a resource (Patient.Contact), an
+	// Element when it belongs to a data type (Timing.Repeat). Its proto name
+	// says nothing about its FHIR type (Account.Coverage is not a Coverage).
+	if parent, nested := item.ProtoReflect().Descriptor().Parent().(protoreflect.MessageDescriptor); nested {
+		root := parent
+		for {
+			outer, ok := root.Parent().(protoreflect.MessageDescriptor)
+			if !ok {
+				break
+			}
+			root = outer
+		}
+		if protofields.IsValidResourceType(string(root.Name())) {
+			return TypeSpecifier{FHIR, "BackboneElement"}, nil
+		}
+		return TypeSpecifier{FHIR, "Element"}, nil
+	}
 	return TypeSpecifier{FHIR, primitiveToLowercase(name)}, nil
 }
 
@@ -113,7 +132,8 @@ func (ts TypeSpecifier) parent() TypeSpecifier {
 		return TypeSpecifier{FHIR, "uri"}
 	case "Duration", "MoneyQuantity", "Age", "Count", "Distance", "SimpleQuantity":
 		return TypeSpecifier{FHIR, "Quantity"}
-	case "Timing", "Dosage", "ElementDefinition":
+	case "Timing", "Dosage", "ElementDefinition",
+		"MarketingStatus", "Population", "ProdCharacteristic", "ProductShelfLife", "SubstanceAmount":
 		return TypeSpecifier{FHIR, "BackboneElement"}
 	case "Bundle", "Binary", "Parameters", "DomainResource":
 		return TypeSpecifier{FHIR, "Resource"}
